@@ -364,7 +364,7 @@ namespace Pistache::Http::Experimental
             else
             {
                 totalWritten += bytesWritten;
-                if (totalWritten == len)
+                if (static_cast<size_t>(totalWritten) == buffer.size())
                 {
                     if (req.timer)
                     {
